@@ -25,7 +25,13 @@ pub enum SForm {
     /// the prelude BTreeMap<K, V>
     BTreeMap,
 }
-pub const SFORMS: [SForm; 5] = [SForm::Plain, SForm::One, SForm::Two, SForm::TwoSecondSkipped, SForm::BTreeMap];
+pub const SFORMS: [SForm; 5] = [
+    SForm::Plain,
+    SForm::One,
+    SForm::Two,
+    SForm::TwoSecondSkipped,
+    SForm::BTreeMap,
+];
 
 #[derive(Clone, Copy, Debug, PartialEq, Eq, Hash, Serialize, Deserialize)]
 pub enum Use {
@@ -122,11 +128,23 @@ impl SubstState {
             Def::strukt(&["p", "a"], "H", &["T"], named(vec![("g", Ty::Param(0))])),
         ];
         let s = match self.sform {
-            SForm::Plain | SForm::BTreeMap => Def::strukt(&["p", "s"], "S", &[], named(vec![("v", U8)])),
+            SForm::Plain | SForm::BTreeMap => {
+                Def::strukt(&["p", "s"], "S", &[], named(vec![("v", U8)]))
+            }
             SForm::One => Def::strukt(&["p", "s"], "S", &["T"], named(vec![("a", Ty::Param(0))])),
-            SForm::Two => Def::strukt(&["p", "s"], "S", &["T", "U"], named(vec![("a", Ty::Param(0)), ("b", Ty::Param(1))])),
+            SForm::Two => Def::strukt(
+                &["p", "s"],
+                "S",
+                &["T", "U"],
+                named(vec![("a", Ty::Param(0)), ("b", Ty::Param(1))]),
+            ),
             SForm::TwoSecondSkipped => {
-                let mut d = Def::strukt(&["p", "s"], "S", &["T", "U"], named(vec![("a", Ty::Param(0))]));
+                let mut d = Def::strukt(
+                    &["p", "s"],
+                    "S",
+                    &["T", "U"],
+                    named(vec![("a", Ty::Param(0))]),
+                );
                 d.params[1].skipped = true;
                 d
             }
@@ -144,7 +162,10 @@ impl SubstState {
                     &["p", "h"],
                     "Par",
                     &["T"],
-                    named(vec![("f", self.s_ty(Ty::Param(0), n.clone())), ("t", Ty::Param(0))]),
+                    named(vec![
+                        ("f", self.s_ty(Ty::Param(0), n.clone())),
+                        ("t", Ty::Param(0)),
+                    ]),
                 ));
                 Ty::Named(host, vec![U16])
             }
@@ -153,7 +174,11 @@ impl SubstState {
                     &["p", "h"],
                     "Par2",
                     &["A", "T"],
-                    named(vec![("a", Ty::Param(0)), ("f", self.s_ty(Ty::Param(1), n.clone())), ("t", Ty::Param(1))]),
+                    named(vec![
+                        ("a", Ty::Param(0)),
+                        ("f", self.s_ty(Ty::Param(1), n.clone())),
+                        ("t", Ty::Param(1)),
+                    ]),
                 ));
                 Ty::Named(host, vec![U16, U8])
             }
@@ -173,17 +198,28 @@ impl SubstState {
                 };
                 let fields = match use_ {
                     Use::UnnamedField => Fields::Unnamed(vec![Field::new(U16), Field::new(f)]),
-                    _ => Fields::Named(vec![("x".into(), Field::new(U16)), ("f".into(), Field::new(f))]),
+                    _ => Fields::Named(vec![
+                        ("x".into(), Field::new(U16)),
+                        ("f".into(), Field::new(f)),
+                    ]),
                 };
                 if use_ == Use::VariantField {
-                    defs.push(Def::enm(&["p", "h"], "Host", &[], vec![variant("A", Fields::Unit), variant("B", fields)]));
+                    defs.push(Def::enm(
+                        &["p", "h"],
+                        "Host",
+                        &[],
+                        vec![variant("A", Fields::Unit), variant("B", fields)],
+                    ));
                 } else {
                     defs.push(Def::strukt(&["p", "h"], "Host", &[], fields));
                 }
                 Ty::Named(host, vec![])
             }
         };
-        Program { defs, roots: vec![root] }
+        Program {
+            defs,
+            roots: vec![root],
+        }
     }
 
     pub fn source_path(&self) -> &'static str {
@@ -199,7 +235,8 @@ impl SubstState {
         s.root = "root".into();
         if let Some(r) = self.rule {
             let (g, t) = rule_forms()[r];
-            s.substitutes.push((format!("{}{}", self.source_path(), g), t.to_string()));
+            s.substitutes
+                .push((format!("{}{}", self.source_path(), g), t.to_string()));
         }
         if self.second {
             s.substitutes.push(("p::a::N".into(), "::t::NN<B>".into()));
@@ -249,8 +286,12 @@ pub fn reference_substitution(source_generics: &str, target: &str, args: &[Strin
                         .args
                         .iter()
                         .map(|g| match g {
-                            syn::GenericArgument::Type(syn::Type::Path(tp)) if tp.qself.is_none() => {
-                                let single = tp.path.leading_colon.is_none() && tp.path.segments.len() == 1 && tp.path.segments[0].arguments.is_empty();
+                            syn::GenericArgument::Type(syn::Type::Path(tp))
+                                if tp.qself.is_none() =>
+                            {
+                                let single = tp.path.leading_colon.is_none()
+                                    && tp.path.segments.len() == 1
+                                    && tp.path.segments[0].arguments.is_empty();
                                 if single {
                                     let name = tp.path.segments[0].ident.to_string();
                                     if let Some(i) = names.iter().position(|n| *n == name) {
@@ -289,7 +330,11 @@ pub fn check_state(st: &SubstState, ctx: &mut Ctx) {
     let spec = st.spec();
     let settings = spec.build();
     let (src_generics, target) = rule_forms()[rule];
-    let source_path: Vec<String> = st.source_path().split("::").map(|s| s.to_string()).collect();
+    let source_path: Vec<String> = st
+        .source_path()
+        .split("::")
+        .map(|s| s.to_string())
+        .collect();
     let replay = || json!({"check": "C07", "state": serde_json::to_value(st).unwrap(), "source": prog.to_source(), "rule": format!("{}{} -> {}", st.source_path(), src_generics, target)});
     let size = 10;
     ctx.exec(1);
@@ -298,7 +343,10 @@ pub fn check_state(st: &SubstState, ctx: &mut Ctx) {
         other => {
             ctx.violation(
                 "C07/generation-fails",
-                format!("generation with a substitution rule fails: {}", truncate(&format!("{other:?}"), 120)),
+                format!(
+                    "generation with a substitution rule fails: {}",
+                    truncate(&format!("{other:?}"), 120)
+                ),
                 replay(),
                 size,
             );
@@ -317,7 +365,12 @@ pub fn check_state(st: &SubstState, ctx: &mut Ctx) {
     let mut full = vec![spec.root.clone()];
     full.extend(source_path.iter().cloned());
     if source_path.len() > 1 && (em.items.contains_key(&full) || em.modules.contains_key(&full)) {
-        ctx.violation("C07/still-defined", format!("{} is still defined in the output", full.join("::")), replay(), size);
+        ctx.violation(
+            "C07/still-defined",
+            format!("{} is still defined in the output", full.join("::")),
+            replay(),
+            size,
+        );
     }
     // (2) and is not referenced: not in any field type ...
     let needle = if source_path.len() > 1 {
@@ -347,7 +400,11 @@ pub fn check_state(st: &SubstState, ctx: &mut Ctx) {
             if mentions(&ty_str(&f.ty)) {
                 ctx.violation(
                     "C07/still-referenced/field",
-                    format!("field of {} still mentions the substituted path: `{}`", p.join("::"), ty_str(&f.ty)),
+                    format!(
+                        "field of {} still mentions the substituted path: `{}`",
+                        p.join("::"),
+                        ty_str(&f.ty)
+                    ),
                     replay(),
                     size,
                 );
@@ -399,7 +456,10 @@ pub fn check_state(st: &SubstState, ctx: &mut Ctx) {
             }
             other => ctx.violation(
                 "C07/resolve-fails",
-                format!("resolve_type_path({id}) = {}", truncate(&format!("{other:?}"), 100)),
+                format!(
+                    "resolve_type_path({id}) = {}",
+                    truncate(&format!("{other:?}"), 100)
+                ),
                 replay(),
                 size,
             ),
@@ -416,8 +476,14 @@ pub fn check_state(st: &SubstState, ctx: &mut Ctx) {
         }
         let mut p = vec![spec.root.clone()];
         p.extend(def.path());
-        let Some(item) = em.items.get(&p) else { continue };
-        let src_fields: Vec<&Field> = def.all_fields().into_iter().filter(|f| !matches!(f.ty, Ty::Phantom(_))).collect();
+        let Some(item) = em.items.get(&p) else {
+            continue;
+        };
+        let src_fields: Vec<&Field> = def
+            .all_fields()
+            .into_iter()
+            .filter(|f| !matches!(f.ty, Ty::Phantom(_)))
+            .collect();
         let got_fields: Vec<&FieldAst> = match &item.kind {
             ItemKind::Struct(f) => f.list().iter().collect(),
             ItemKind::Enum(vs) => vs.iter().flat_map(|v| v.fields.list().iter()).collect(),
@@ -427,8 +493,22 @@ pub fn check_state(st: &SubstState, ctx: &mut Ctx) {
             let got = ty_str(&gf.ty);
             if got != crate::settings::canon_type_str(&want) {
                 ctx.violation(
-                    format!("C07/wrong-substitution/{}", if matches!(st.use_, Some(Use::InGenericParent) | Some(Use::InGenericParent2)) { "in-generic-parent" } else { "field" }),
-                    format!("field of {}: emitted `{got}`, reference substitution gives `{}`", def.name, crate::settings::canon_type_str(&want)),
+                    format!(
+                        "C07/wrong-substitution/{}",
+                        if matches!(
+                            st.use_,
+                            Some(Use::InGenericParent) | Some(Use::InGenericParent2)
+                        ) {
+                            "in-generic-parent"
+                        } else {
+                            "field"
+                        }
+                    ),
+                    format!(
+                        "field of {}: emitted `{got}`, reference substitution gives `{}`",
+                        def.name,
+                        crate::settings::canon_type_str(&want)
+                    ),
                     replay(),
                     size,
                 );
@@ -499,7 +579,10 @@ pub fn worker_check(state: &serde_json::Value, ctx: &mut Ctx) {
 pub fn run(tier: &str, seed: u64) -> i32 {
     let mut report = Report::new("C07", tier, seed, "model_checking");
     let (all, transitions, complete) = enumerate(&DSubst, 3, 1_000_000);
-    let states: Vec<String> = all.iter().map(|(_, s)| serde_json::to_string(s).unwrap()).collect();
+    let states: Vec<String> = all
+        .iter()
+        .map(|(_, s)| serde_json::to_string(s).unwrap())
+        .collect();
     // worker subprocesses: a substitution that recurses without end kills the worker, not the check
     let mut st = isolated_sweep(
         &format!("{} (worker subprocesses)", DSubst.name()),
